@@ -26,11 +26,23 @@ func emitRetryLiterals(p *pkgInfo, w *bytes.Buffer) {
 		must(fmt.Errorf("RetryHTTPSGetter.Get not found"))
 	}
 	initial, factor, capped, selectArms := "?", "?", "?", 0
+	// the delay variable is the one handed to time.After / time.NewTimer / time.Sleep
+	dv := "delay"
+	ast.Inspect(fn.Body, func(n ast.Node) bool {
+		if call, ok := n.(*ast.CallExpr); ok && len(call.Args) == 1 {
+			if sel, ok := call.Fun.(*ast.SelectorExpr); ok && isIdent(sel.X, "time") && (sel.Sel.Name == "After" || sel.Sel.Name == "NewTimer" || sel.Sel.Name == "Sleep") {
+				if id, ok := call.Args[0].(*ast.Ident); ok {
+					dv = id.Name
+				}
+			}
+		}
+		return true
+	})
 	ast.Inspect(fn.Body, func(n ast.Node) bool {
 		switch s := n.(type) {
 		case *ast.AssignStmt:
 			if len(s.Lhs) == 1 && len(s.Rhs) == 1 {
-				if id, ok := s.Lhs[0].(*ast.Ident); ok && id.Name == "delay" {
+				if id, ok := s.Lhs[0].(*ast.Ident); ok && id.Name == dv {
 					if s.Tok == token.DEFINE {
 						if v, ok := p.constVal(s.Rhs[0]); ok {
 							initial = v
@@ -39,13 +51,13 @@ func emitRetryLiterals(p *pkgInfo, w *bytes.Buffer) {
 						if be, ok := s.Rhs[0].(*ast.BinaryExpr); ok {
 							x, xok := be.X.(*ast.Ident)
 							y, yok := be.Y.(*ast.Ident)
-							if be.Op == token.ADD && xok && yok && x.Name == "delay" && y.Name == "delay" {
+							if be.Op == token.ADD && xok && yok && x.Name == dv && y.Name == dv {
 								factor = "2"
 							} else if be.Op == token.MUL {
-								if v, ok := p.constVal(be.Y); ok && xok && x.Name == "delay" {
+								if v, ok := p.constVal(be.Y); ok && xok && x.Name == dv {
 									factor = v
 								}
-								if v, ok := p.constVal(be.X); ok && yok && y.Name == "delay" {
+								if v, ok := p.constVal(be.X); ok && yok && y.Name == dv {
 									factor = v
 								}
 							}
@@ -123,13 +135,58 @@ func emitOids(p *pkgInfo, w *bytes.Buffer) {
 	}
 }
 
+// sigOf renders a function's signature without parameter names.
+func sigOf(p *pkgInfo, fd *ast.FuncDecl) string {
+	var b bytes.Buffer
+	for _, fl := range []*ast.FieldList{fd.Type.Params, fd.Type.Results} {
+		b.WriteString("(")
+		for _, t := range fieldTypes(fl) {
+			printerFprint(&b, p.fset, t)
+			b.WriteString(",")
+		}
+		b.WriteString(")")
+	}
+	return strings.ReplaceAll(b.String(), "uint8", "byte")
+}
+
+// bySig finds an unexported helper by name, else as the only function of the
+// package with the given signature; the current name of each helper found that
+// way is recorded in canon.
+func bySig(p *pkgInfo, name, sig string) *ast.FuncDecl {
+	if f := findFunc(p, name); f != nil {
+		return f
+	}
+	var found []*ast.FuncDecl
+	for _, file := range p.files {
+		for _, d := range file.Decls {
+			if fd, ok := d.(*ast.FuncDecl); ok && fd.Recv == nil && sigOf(p, fd) == sig {
+				found = append(found, fd)
+			}
+		}
+	}
+	if len(found) == 1 {
+		canon[found[0].Name.Name] = name
+		return found[0]
+	}
+	return nil
+}
+
 // emitValidateTables extracts the option tables of checkOptionsLengths,
 // exactByteMatch and the mask arguments of tdxQuoteV4.
 func emitValidateTables(p *pkgInfo, w *bytes.Buffer) {
 	w.WriteString("\n")
 	// checkOptionsLengths: lengthCheck("name", SIZE, opts.X.Field) / lengthCheckMany("name", c, SIZE, opts.X.Field)
 	var rows []fieldRow
-	if fn := findFunc(p, "checkOptionsLengths"); fn != nil {
+	for _, h := range [][2]string{
+		{"lengthCheck", "(string,int,[]byte,)(error,)"},
+		{"lengthCheckMany", "(string,func(int) error,int,[][]byte,)(error,)"},
+		{"byteCheck", "(string,string,int,[]byte,[]byte,)(error,)"},
+		{"byteCheckRtmr", "(int,[][]byte,[][]byte,)(error,)"},
+		{"byteCheckAny", "(int,[]byte,[][]byte,)(error,)"},
+	} {
+		bySig(p, h[0], h[1])
+	}
+	if fn := bySig(p, "checkOptionsLengths", "(*Options,)(error,)"); fn != nil {
 		ast.Inspect(fn.Body, func(n ast.Node) bool {
 			call, ok := n.(*ast.CallExpr)
 			if !ok {
@@ -139,7 +196,7 @@ func emitValidateTables(p *pkgInfo, w *bytes.Buffer) {
 			if !ok {
 				return true
 			}
-			switch id.Name {
+			switch canonName(id.Name) {
 			case "lengthCheck":
 				if len(call.Args) == 3 {
 					sz, _ := p.constVal(call.Args[1])
@@ -172,7 +229,7 @@ func emitValidateTables(p *pkgInfo, w *bytes.Buffer) {
 			if !ok {
 				return true
 			}
-			switch id.Name {
+			switch canonName(id.Name) {
 			case "byteCheck":
 				if len(call.Args) == 5 {
 					sz, _ := p.constVal(call.Args[2])
